@@ -183,8 +183,7 @@ CLAIMS = {
          "X86Loop (C01) shows the head/body/tail partition stays inside 0..n-1 at design level.",
     design_ref="DESIGN.md sections 6 (design) and 12 (as built), C03",
     note="Guards are page-granular and one-sided per run (both sides are run); reads inside the entitled hull but "
-         "outside the entitled set are not seen.  Known finding F18 (ldres* with start "
-         "position >= 1.0 on sse/mmx) is listed in known_findings.jsonl.",
+         "outside the entitled set are not seen.",
     technique="TLA+ footprint specification enumerated by TLC into guarded-memory configurations run on the real "
               "backends; TLC trace validation of the recorded accesses"),
  "C04": dict(
